@@ -205,6 +205,19 @@ def B1Chain {X : Type} (m : Map X) : Nat → List Nat → Prop
   | _, [] => True
   | d, x :: l => m.β 1 d = x ∧ B1Chain m x l
 
+instance instDecB1Chain {X : Type} (m : Map X) : (d : Nat) → (l : List Nat) → Decidable (B1Chain m d l)
+  | _, [] => isTrue trivial
+  | d, x :: l => @instDecidableAnd _ _ (inferInstanceAs (Decidable (m.β 1 d = x))) (instDecB1Chain m x l)
+
+/-- on a sized map, a dart with a non-null image exists -/
+theorem Sized.lt_of_β_ne {X : Type} {m : Map X} (h : Sized 3 m) {i d : Nat} (hi : i < 3) (hne : m.β i d ≠ 0) :
+    d < m.n := by
+  by_contra hd
+  apply hne
+  unfold Map.β
+  apply rd_oob
+  rw [h.row i hi]; omega
+
 /-- the chain only depends on β1 of its darts except the last one -/
 theorem B1Chain.frame {X : Type} {m m' : Map X} : ∀ (l : List Nat) (d : Nat), B1Chain m d l →
     (∀ y ∈ (d :: l).dropLast, m'.β 1 y = m.β 1 y) → B1Chain m' d l := by
